@@ -5,6 +5,7 @@ import (
 	stded "crypto/ed25519"
 	"fmt"
 	"os"
+	"strconv"
 	"strings"
 	"time"
 
@@ -30,8 +31,13 @@ type History struct {
 	RetainDelta int64
 	// configuration variant storage.discard_abci_responses
 	DiscardABCI bool
-	GenTime     time.Time
-	PowerSelf   int64
+	// crash model for the databases: 0 = process crash (every completed write survives); > 0 = power loss, that
+	// fraction (rounded up) of the latest writes that no synced write followed is lost, per database
+	DBLoss float64
+	// the parameter change at ParamAt also sets the application version to this value (0 = it does not)
+	AppVersionTo uint64
+	GenTime      time.Time
+	PowerSelf    int64
 	// four-validator mode: the node is validator 0 of 4, the others are played by the harness
 	// at the first restart the application reports an older committed height (restored from its own older state)
 	AppRollback int64
@@ -59,14 +65,29 @@ func GenHistory(t *rapid.T) History {
 	h.RetainAt = int64(rapid.IntRange(0, int(h.Heights)+1).Draw(t, "retainAt"))
 	h.RetainDelta = rapid.SampledFrom([]int64{-1, -1, -1, -2, 0, 0, 1}).Draw(t, "retainDelta")
 	h.DiscardABCI = rapid.IntRange(0, 3).Draw(t, "discardABCIResponses") == 0
-	h.GenTime = time.Now().Add(-time.Hour).UTC()
-	if rapid.IntRange(0, 3).Draw(t, "initialHeight") == 0 {
-		h.Initial = int64(rapid.IntRange(2, 50).Draw(t, "initial"))
+	h.DBLoss = rapid.SampledFrom([]float64{0, 0, 0, 1, 1, 0.5, 0.25}).Draw(t, "dbLoss")
+	h.AppVersionTo = rapid.SampledFrom([]uint64{0, 0, 2, 7}).Draw(t, "appVersionTo")
+	if f := os.Getenv("VERIF_DBLOSS"); f != "" {
+		h.DBLoss, _ = strconv.ParseFloat(f, 64) // debugging aid
 	}
+	h.GenTime = time.Now().Add(-time.Hour).UTC()
+	h.Initial = genInitial(t)
 	if h.RetainAt <= 1 && rapid.IntRange(0, 3).Draw(t, "rollback") == 0 {
 		h.AppRollback = int64(rapid.IntRange(1, 4).Draw(t, "rollbackBy"))
 	}
 	return h
+}
+
+// genInitial draws the genesis initial height: mostly 1, else small, else beyond what a float64 holds exactly (heights
+// travel through JSON in the sign-state file and through varints everywhere else).
+func genInitial(t *rapid.T) int64 {
+	switch rapid.IntRange(0, 7).Draw(t, "initialHeight") {
+	case 0, 1:
+		return int64(rapid.IntRange(2, 50).Draw(t, "initial"))
+	case 2:
+		return rapid.SampledFrom([]int64{1<<53 + 1, 1<<53 + 3, 1 << 62}).Draw(t, "initialBig")
+	}
+	return 0
 }
 
 func (h History) genDoc() *types.GenesisDoc {
@@ -114,6 +135,10 @@ func (h History) NewNodeHome() (*Persist, error) {
 			p.App.Plans[h.off(h.ParamAt)] = pl
 		}
 		pl.Params = &abci.ConsensusParams{Block: &abci.BlockParams{MaxBytes: 1 << 20, MaxGas: 1000 + h.ParamAt}}
+		if h.AppVersionTo > 0 {
+			// the chain's application version moves (the value the application reports in Info stays what it was)
+			pl.Params.Version = &tmproto.VersionParams{AppVersion: h.AppVersionTo}
+		}
 	}
 	if h.RetainAt > 1 {
 		pl := p.App.Plans[h.off(h.RetainAt)]
@@ -194,6 +219,7 @@ type Result struct {
 	HeadSynced     int64
 	HeadOnDisk     int64
 	NoCrash        bool
+	DBWritesLost   int               // unsynced database operations lost at the crashes (power-loss model)
 	Violations     map[string]string // property id -> description
 	ReplayCompared bool
 	ReplayExact    bool
@@ -396,8 +422,14 @@ func RunCrash(h History, k int, cutFrac float64, recoveryCrashes []int) (*Result
 		if inc == 0 {
 			res.CutAt, res.HeadSynced, res.HeadOnDisk = cut, s.HeadSynced, s.HeadOnDisk
 		}
+		if lb, ls := s.LoseUnsyncedDBWrites(h.DBLoss); lb+ls > 0 {
+			res.DBWritesLost += lb + ls
+		}
 		if err := p.Restore(s, cut); err != nil {
 			return nil, err
+		}
+		if os.Getenv("VERIF_DEBUG_WAL") != "" {
+			DumpWAL(p.walFile(), fmt.Sprintf("after crash %d (%s), cut=%d synced=%d ondisk=%d", inc, crashed.Label, cut, s.HeadSynced, s.HeadOnDisk))
 		}
 		if inc == 0 {
 			// what can a reader still see of the unfinished height?
